@@ -978,8 +978,8 @@ void ep_mul_sim_dig(ep_t r, const ep_t p[], const dig_t k[], int n) {
 
 	ep_null(t);
 
-	max = util_bits_dig(k[0]);
-	for (int i = 1; i < n; i++) {
+	max = 0;
+	for (int i = 0; i < n; i++) {
 		max = RLC_MAX(max, util_bits_dig(k[i]));
 	}
 
